@@ -79,6 +79,24 @@ Theorem C15_pair_order_is_rfc_order : forall G D G' D',
   pair_formula G D < pair_formula G' D'.
 Proof. exact pair_formula_order. Qed.
 
+(** pair priorities separate pairs: in the 31-bit range every candidate priority has (C15_candidate_priority_range)
+    two different (G, D) couples never share a pair priority, so the descending order of the check list is total;
+    outside that range the RFC formula itself collides *)
+Theorem C15_pair_priority_injective : forall G D G' D',
+  u31 G -> u31 D -> u31 G' -> u31 D' ->
+  pair_formula G D = pair_formula G' D' -> G = G' /\ D = D'.
+Proof. exact pair_formula_injective. Qed.
+
+Theorem C15_pair_priority_injective_refuted_beyond_31_bits :
+  exists G D G' D', u32 G /\ u32 D /\ u32 G' /\ u32 D' /\ (G, D) <> (G', D') /\
+    pair_formula G D = pair_formula G' D'.
+Proof. exact pair_formula_not_injective_u32. Qed.
+
+(** the same two candidates seen from the two roles differ by exactly the tie-break bit *)
+Theorem C15_pair_priority_swap : forall G D, G <> D ->
+  pair_formula G D = pair_formula D G + (if G >? D then 1 else -1).
+Proof. exact pair_formula_swap. Qed.
+
 (** the check list is in descending pair-priority order at all times, including after a role switch,
     and every stored priority is the one of the current role; a role switch loses no pair *)
 Theorem C15_check_list_sorted_always : forall c ops,
